@@ -5,38 +5,69 @@ import Driver.Proto
 namespace Driver.C02
 open ArrModel Driver
 
-/-- all C02 ops act on a tag array `iSHAPE`; results are positions / coordinates / element tags -/
-def handle (op : String) (args : List String) : Option String :=
-  match op, args with
-  | "index_at", [a, c] => do
-    let a ← parseArr? a; let c ← parseNatList? c
+/-- all C02 ops act on a tag array `iSHAPE` (first argument, already parsed); results are positions / coordinates /
+element tags -/
+def handleArr (op : String) (a : Arr Int) (rest : List String) : Option String :=
+  match op, rest with
+  | "index_at", [c] => do
+    let c ← parseNatList? c
     some (showRes toString (a.indexAt c))
-  | "index_to_coord", [a, i] => do
-    let a ← parseArr? a; let i ← parseNat? i
+  | "index_to_coord", [i] => do
+    let i ← parseNat? i
     some (showRes showNatList (a.indexToCoord i))
-  | "at", [a, c] => do
-    let a ← parseArr? a; let c ← parseNatList? c
+  | "at", [c] => do
+    let c ← parseNatList? c
     some (showRes toString (a.atc c))
-  | "op_index", [a, i] => do
-    let a ← parseArr? a; let i ← parseNat? i
+  | "op_index", [i] => do
+    let i ← parseNat? i
     some (showRes toString (a.opIndex i))
-  | "op_index_coords", [a, c] => do
-    let a ← parseArr? a; let c ← parseNatList? c
+  | "op_index_coords", [c] => do
+    let c ← parseNatList? c
     some (showRes toString (a.opIndexCoords c))
   -- extension: the two remaining lookup operations; results are whole arrays `shape:elems`
-  | "slice", [a, s, e] => do
-    let a ← parseArr? a; let s ← parseNat? s; let e ← parseNat? e
+  | "slice", [s, e] => do
+    let s ← parseNat? s; let e ← parseNat? e
     some (showRes showArr (a.slice s e))
-  | "indices_at", [a, l] => do
-    let a ← parseArr? a; let l ← parseNatList? l
-    -- cross-check of the two models on every explored case: the row blocks `axis0Pieces` that `indicesAt` is
-    -- stated on must be the element lists of the pieces the C11 model of `split_axis(0)` returns
-    if a.ndim ≥ 2 && (a.splitAxis 0 0).map (fun ps => ps.map (·.elems)) != .ok a.axis0Pieces then
+  | "indices_at", [l] => do
+    let l ← parseNatList? l
+    -- cross-check of the two models on every explored case of up to 1200 elements (the C11 model of `split_axis` is
+    -- quadratic; the big-shape stream beyond that size is answered by `indicesAt` alone): the row blocks `axis0Pieces`
+    -- that `indicesAt` is stated on must be the element lists of the pieces the C11 model of `split_axis(0)` returns
+    if a.ndim ≥ 2 && a.elems.length ≤ 1200 && (a.splitAxis 0 0).map (fun ps => ps.map (·.elems)) != .ok a.axis0Pieces then
       some "model-disagree: axis0Pieces is not split_axis(0)"
     else
       some (showRes showArr (a.indicesAt l))
   | _, _ => none
 
+def handle (op : String) (args : List String) : Option String :=
+  match args with
+  | a :: rest => do
+    let a ← parseArr? a
+    handleArr op a rest
+  | [] => none
+
+/-- `Driver.loop` with a one-entry memo of the parsed array argument: the case lines of one (big) array follow each
+other, and re-building a 5000-element tag list for every line dominated the run time.  Same answers as
+`runDriver handle` line by line (`handle` = parse the first argument, then `handleArr`). -/
+partial def loopMemo (hin hout : IO.FS.Stream) (key : String) (arr : Option (Arr Int)) : IO Unit := do
+  let line ← hin.getLine
+  if line.isEmpty then return ()
+  match line.trimAscii.toString.splitOn " " with
+  | full :: k :: rest =>
+    let op := match full.splitOn "." with
+      | [_, op] => op
+      | _ => full
+    let arr' := if k == key then arr else parseArr? k
+    hout.putStrLn ((arr'.bind (fun a => handleArr op a rest)).getD "bad-op")
+    loopMemo hin hout k arr'
+  | _ =>
+    hout.putStrLn "bad-op"
+    loopMemo hin hout key arr
+
 end Driver.C02
 
-def main : IO Unit := Driver.runDriver Driver.C02.handle
+def main : IO Unit := do
+  let hin ← IO.getStdin
+  let hout ← IO.getStdout
+  Driver.C02.loopMemo hin hout "" none
+  hout.flush
